@@ -170,9 +170,7 @@ func (this *RaftTransport) getNodeRaftTransportClient(nodeId uint64) (pb.RaftTra
 		return nil, err
 	}
 
-	this.nodeClientsMu.Lock()
-	defer this.nodeClientsMu.Unlock()
-
-	this.nodeClients[nodeId] = pb.NewRaftTransportClient(conn)
-	return this.nodeClients[nodeId], nil
+	// The client is not kept: cluster.Conn caches the connection and replaces it when the node's
+	// address changes or the node is removed (a kept client would stay bound to the closed one)
+	return pb.NewRaftTransportClient(conn), nil
 }
